@@ -9,6 +9,8 @@ package main
 // covered ONLY here — the evidence says so.
 
 import (
+	"math/big"
+	"crypto/x509"
 	"bytes"
 	"fmt"
 	"io"
@@ -343,10 +345,16 @@ func init() {
 		}})
 	regDecoder(decoder{name: "ocsp.ParseResponse+ParseRequest (not modelled)", maxLen: 8192,
 		run: func(b []byte) {
-			ocsp.ParseResponse(b, nil)
 			ocsp.ParseRequest(b)
+			// every entry point of the response parser: any certificate, the certificate of some other serial
+			// number (no SingleResponse is for it), the certificate the response is for
+			resp, err := ocsp.ParseResponse(b, nil)
+			ocsp.ParseResponseForCert(b, &x509.Certificate{SerialNumber: big.NewInt(0x5eeded)}, nil)
+			if err == nil && resp != nil && resp.SerialNumber != nil {
+				ocsp.ParseResponseForCert(b, &x509.Certificate{SerialNumber: resp.SerialNumber}, nil)
+			}
 		},
-		seeds: func(r *h.Rand) [][]byte { return ocspSeeds }})
+		seeds: func(r *h.Rand) [][]byte { return append(append([][]byte{}, ocspSeeds...), h.UnHex(ocspRealResponse)) }})
 	regDecoder(decoder{name: "json.JsonPlusReader+Unmarshal", maxLen: 65536,
 		run: func(b []byte) {
 			io.Copy(io.Discard, ojson.NewJsonPlusReader(bytes.NewReader(b)))
@@ -357,6 +365,10 @@ func init() {
 			return [][]byte{[]byte(`{"a":"x\"y", /* c */ "b":[1,2,3] // tail` + "\n}"), []byte(`["\\\"", '//', "/*"] /* open`), []byte("//\n//\n{}"), []byte(`{"k":"v"}`)}
 		}})
 }
+
+// ocspRealResponse: a complete successful response without embedded certificate (the public test vector
+// ocspResponseWithoutCertHex of golang.org/x/crypto/ocsp, which this package was forked from).
+const ocspRealResponse = "308201d40a0100a08201cd308201c906092b0601050507300101048201ba308201b630819fa2160414884451ff502a695e2d88f421bad90cf2cecbea7c180f32303133303631383037323434335a30743072304a300906052b0e03021a0500041448b60d38238df8456e4ee5843ea394111802979f0414884451ff502a695e2d88f421bad90cf2cecbea7c021100f78b13b946fc9635d8ab49de9d2148218000180f32303133303631383037323434335aa011180f32303133303632323037323434335a300d06092a864886f70d01010505000382010100103e18b3d297a5e7a6c07a4fc52ac46a15c0eba96f3be17f0ffe84de5b8c8e055a8f577586a849dc4abd6440eb6fedde4622451e2823c1cbf3558b4e8184959c9fe96eff8bc5f95866c58c6d087519faabfdae37e11d9874f1bc0db292208f645dd848185e4dd38b6a8547dfa7b74d514a8470015719064d35476b95bebb03d4d2845c5ca15202d2784878f20f904c24f09736f044609e9c271381713400e563023d212db422236440c6f377bbf24b2b9e7dec8698e36a8df68b7592ad3489fb2937afb90eb85d2aa96b81c94c25057dbd4759d920a1a65c7f0b6427a224b3c98edd96b9b61f706099951188b0289555ad30a216fb7746515a35fca2e054dfa8"
 
 // ocspSeeds: DER skeletons (a SEQUENCE with nested SEQUENCEs / ENUMERATED / OCTET STRING) — mutation does the rest.
 var ocspSeeds = [][]byte{
